@@ -114,6 +114,7 @@ struct GOpts {
   bool cont_single_token = false;     // continuation body is one token without blanks
   bool multiline_no_trail = false;    // an entry with continuation lines carries no trailing comment at all
   std::string custom_D, custom_C;     // override the table (single characters for C07)
+  bool comment_chars_in_comments = false;  // whole-line comments whose text contains further comment characters
 };
 
 // ---------------------------------------------------------------- text atoms
@@ -438,6 +439,9 @@ inline GFile gen_file(Src &s, const GOpts &o) {
       l.indented = !ind.empty();
       char c = C[s.below((uint32_t)C.size())];
       l.ctext = gen_text(s, a_ctext, gen_len(s, 0, o.long_fields));
+      // (the text of a comment line may contain comment characters again - also the one the line starts with)
+      if (o.comment_chars_in_comments && s.chance(30))
+        l.ctext += std::string(" ") + (s.chance(50) ? c : C[s.below((uint32_t)C.size())]) + " " + gen_text(s, a_ctext, gen_len(s, 0, false));
       if (s.chance(50)) l.ctext = " " + l.ctext;
       l.text = ind + c + l.ctext;
       pending_comments.push_back(l.ctext);
